@@ -366,6 +366,8 @@ class Port(Base):
             self._ports_to_items([4, 5, 6, ..., 65535]) -> [4]
         """
         operator = self._operator
+        if not operator and not ports:
+            return []  # empty expression
         if operator == "eq":
             return ports
         if operator == "range":
